@@ -56,9 +56,22 @@ def spawn(args, hashseed, timeout):
     return lines, None
 
 
-def replay_file(path, src, hashseed=None, verbose=False):
+def replay_file(path, src, hashseed=None, verbose=False, force_single=False):
     with open(path) as f:
         plan = json.load(f)
+    seeds = plan.get("config", {}).get("hashseeds")
+    if seeds and not force_single:
+        # a configuration-dependence finding: execute under each recorded hash seed and compare outcomes
+        outs = [outcome_under(path, src, h) for h in seeds]
+        for o in outs:
+            if o[0] == "violation":
+                return {"status": "violation", "rule": o[1], "detail": "violation under one of the recorded hash seeds"}, plan
+            if o[0] != "ok":
+                return {"status": "harness_error", "detail": str(o)}, plan
+        if len(set(json.dumps(o) for o in outs)) > 1:
+            return {"status": "violation", "rule": plan.get("expect", {}).get("rule"),
+                    "detail": "outcomes under PYTHONHASHSEED %s: %s" % (seeds, outs)}, plan
+        return {"status": "ok", "digest": None, "outcome": outs[0][1]}, plan
     hs = plan.get("config", {}).get("hashseed", 0) if hashseed is None else hashseed
     args = {"mode": "replay", "property": plan["property"], "src": src, "file": os.path.abspath(path),
             "watchdog": 120, "verbose": verbose}
@@ -164,10 +177,10 @@ def main(argv=None):
                 agg.add(ln, s, r, hashseed_for(a.seed, s, r))
         # cross-replica (real hash seed) comparison of configuration-independent outcomes
         for (i, outs) in sorted(agg.outcomes.items()):
-            vals = sorted(set(o for o, _ in outs if o is not None))
+            vals = sorted(set(json.dumps(o) for o, _ in outs if o is not None))
             if len(vals) > 1:
                 agg.cross_mismatch.append({"i": i, "outcomes": outs})
-        for m in agg.cross_mismatch[:5]:
+        for m in agg.cross_mismatch[:2]:
             v = confirm_cross(prop, a, m, scratch)
             if v:
                 violations.append(v)
@@ -228,20 +241,72 @@ def main(argv=None):
     return exit_code
 
 
+def outcome_under(plan_path, src, hashseed):
+    res, _ = replay_file(plan_path, src, hashseed=hashseed, force_single=True)
+    if res.get("status") == "ok":
+        return ("ok", res.get("outcome"))
+    return (res.get("status"), res.get("rule") or res.get("detail"))
+
+
+def _first_diff(a, b):
+    if a[0] == "ok" and b[0] == "ok" and isinstance(a[1], list) and isinstance(b[1], list):
+        for x, y in zip(a[1], b[1]):
+            if x != y:
+                return "first difference at step/object %s: %s vs %s" % (x[0] if isinstance(x, list) and x else "?", x, y)
+    return "%s vs %s" % (str(a)[:300], str(b)[:300])
+
+
 def confirm_cross(prop, a, m, scratch):
-    """A run index gave different configuration-independent outcomes under two real hash seeds:
-    build a replay file that names both seeds; replay = execute under both and compare."""
-    from . import worker
-    mod_args = {"mode": "cross", "property": prop, "src": a.src, "tier": a.tier, "verif_seed": a.seed,
-                "index": m["i"], "hashseeds": [h for _, h in m["outcomes"]], "outdir": scratch, "watchdog": 280}
-    lines, err = spawn(mod_args, m["outcomes"][0][1], 300)
-    if err or not lines:
+    """A run index gave different configuration-independent outcomes under two real hash seeds.
+    Re-generate the plan here (generation is a pure function of the seed), confirm the difference in
+    fresh interpreters, minimise greedily over ops, and write a replay file naming both seeds."""
+    import copy
+    import importlib
+    mod = importlib.import_module("checks." + prop.lower())
+    run_seed = kernel.H(a.seed, prop, m["i"])
+    plan = mod.generate(run_seed, a.tier)
+    seeds = []
+    for _, h in m["outcomes"]:
+        if h not in seeds:
+            seeds.append(h)
+    seeds = seeds[:2]
+    plan.update({"format": kernel.FORMAT, "property": prop,
+                 "origin": {"verif_seed": a.seed, "run_index": m["i"], "run_seed": "%016x" % run_seed, "tier": a.tier}})
+    plan.setdefault("config", {})["hashseed"] = seeds[0]
+    tmp = os.path.join(scratch, "cross-%d.json" % m["i"])
+
+    def differs(p):
+        with open(tmp, "w") as f:
+            json.dump(p, f)
+        o = [outcome_under(tmp, a.src, h) for h in seeds]
+        return o[0] != o[1], o
+
+    bad, o = differs(plan)
+    if not bad:
         return None
-    ln = lines[-1]
-    if ln.get("status") == "violation":
-        return {"rule": ln["rule"], "detail": ln["detail"], "replay": ln["replay"], "i": m["i"],
-                "fingerprint": ln.get("fingerprint")}
-    return None
+    budget = 24
+    changed = True
+    while changed and budget > 0:
+        changed = False
+        for ti in range(len(plan.get("tasks", []))):
+            oi = len(plan["tasks"][ti]) - 1
+            while oi >= 0 and budget > 0:
+                q = copy.deepcopy(plan)
+                del q["tasks"][ti][oi]
+                budget -= 1
+                b2, o2 = differs(q)
+                if b2:
+                    plan, o, changed = q, o2, True
+                oi -= 1
+    plan["config"]["hashseeds"] = seeds
+    rule = "%s.hash_seed_dependent" % prop
+    detail = "the same plan gives different outcomes under PYTHONHASHSEED=%d and %d: %s" % (seeds[0], seeds[1], _first_diff(o[0], o[1]))
+    plan["expect"] = {"rule": rule, "detail": detail,
+                      "fingerprint": kernel.digest_of([rule, plan.get("tasks"), plan.get("program"), plan.get("world")])}
+    path = os.path.join(scratch, "%s-%s.json" % (prop, plan["expect"]["fingerprint"]))
+    with open(path, "w") as f:
+        json.dump(plan, f, indent=1, ensure_ascii=True, sort_keys=True)
+    return {"rule": rule, "detail": detail, "replay": path, "i": m["i"], "fingerprint": plan["expect"]["fingerprint"]}
 
 
 class Aggregate:
